@@ -74,6 +74,9 @@ def pmap(func: Callable[[Any], Any], items: Sequence[Any], workers: int = 16, in
         if pid == 0:
             try:
                 os.close(r)
+                _session = sys.modules.get('mc.tranp.session')
+                if _session is not None:
+                    _session.on_fork()
                 if init:
                     init()
                 for i in range(n):
@@ -90,6 +93,12 @@ def pmap(func: Callable[[Any], Any], items: Sequence[Any], workers: int = 16, in
                     _write_all(wfd, struct.pack('<Q', len(blob)) + blob)
                 os.close(wfd)
             finally:
+                _session = sys.modules.get('mc.tranp.session')
+                if _session is not None:
+                    try:
+                        _session.cleanup()
+                    except Exception:  # noqa
+                        pass
                 os._exit(0)
         os.close(wfd)
         os.set_blocking(r, True)
